@@ -17,6 +17,8 @@ func limitsMenu() []wlItem {
 		{"pend-f5-np-qa", world.WL{Queue: "qa", PC: "p100", Pods: pods(1, shF5, "", "")}},
 		{"pend-m30-qa", world.WL{Queue: "qa", Pods: pods(1, shM30, "", "")}},
 		{"pend-mf2-qa", world.WL{Queue: "qa", Pods: pods(1, shMF2, "", "")}},
+		{"pend-mm2-qa", world.WL{Queue: "qa", Pods: pods(1, shMM2, "", "")}},
+		{"pend-mm2-np-qa", world.WL{Queue: "qa", PC: "p100", Pods: pods(1, shMM2, "", "")}},
 		{"pend-elastic3min1-qa", world.WL{Queue: "qa", MinMember: 1, Pods: pods(3, shG1, "", "")}},
 		{"pend-gang2-qb", world.WL{Queue: "qb", MinMember: 2, Pods: pods(2, shG1, "", "")}},
 		{"pend-g1-np-qb", world.WL{Queue: "qb", PC: "p100", Pods: pods(1, shG1, "", "")}},
